@@ -97,6 +97,53 @@ Theorem C14_reads_see_source_assignment : forall pre c idom pi bi b k s v n,
 Proof. exact reads_see_source_assignment. Qed.
 Print Assumptions C14_reads_see_source_assignment.
 
+(* ---- the construction itself (mirror Model.Ssa.into_ssa, compared with the real
+   `into_ssa` on every run): for ALL frontier tables, ALL children tables and ALL graphs.
+   Hypotheses on the graph BEFORE the conversion (decidable, syntactic):
+     phi_free c      no phi expression anywhere (IR lifting builds none)
+     decls_ok c      the names of a local declaration statement share one key
+                     (the Rust code asserts names.len() == 1)
+     unversioned c   no variable occurrence carries a version yet (Proofs.SsaNoPanic)
+     pre_ssa_ok c    phi_free, decls_ok, and the parameters are declared locals
+     children_cover  the children table reaches every block from block 0 ---- *)
+Require Import Model.Ssa Proofs.SsaNoPanic Proofs.SsaConstruction.
+
+(* the output is the input with versions added and phi statements prepended *)
+Theorem C14_construction_is_erasure : forall frontier children c c',
+  phi_free c = true -> decls_ok c = true ->
+  into_ssa frontier children c = SOk c' -> erase_eqb c c' = true.
+Proof. exact into_ssa_is_erasure. Qed.
+Print Assumptions C14_construction_is_erasure.
+
+(* phi statements stand only at the head of blocks *)
+Theorem C14_construction_phis_at_head : forall frontier children c c',
+  into_ssa frontier children c = SOk c' -> phi_free c = true ->
+  forall b, In b (c_blocks c') -> Forall (fun s => is_phi_stmt s = false) (body_of b).
+Proof. exact into_ssa_phis_at_head. Qed.
+Print Assumptions C14_construction_phis_at_head.
+
+(* every versioned local has at most one defining statement (versions are handed
+   out by a per-key counter that only grows) *)
+Theorem C14_construction_unique_defs : forall frontier children c c',
+  unversioned c -> into_ssa frontier children c = SOk c' -> NoDup (all_defs c').
+Proof. exact into_ssa_unique_defs_unversioned. Qed.
+Print Assumptions C14_construction_unique_defs.
+
+(* no key is assigned both with and without a version *)
+Theorem C14_construction_mixed_keys_ok : forall frontier children c c',
+  children_cover children (length (c_blocks c)) ->
+  forallb (is_local_in (c_decls c)) (c_params c) = true ->
+  into_ssa frontier children c = SOk c' -> mixed_keys_ok c' = true.
+Proof. exact into_ssa_mixed_keys_ok. Qed.
+Print Assumptions C14_construction_mixed_keys_ok.
+
+(* so the construction always passes the erasure validator *)
+Theorem C14_construction_passes_erase_check : forall frontier children c c',
+  pre_ssa_ok c = true -> children_cover children (length (c_blocks c)) ->
+  into_ssa frontier children c = SOk c' -> erase_check c c' = true.
+Proof. exact into_ssa_passes_erase_check. Qed.
+Print Assumptions C14_construction_passes_erase_check.
+
 (* non-vacuity: a two-block loop graph  x.1 = phi(x.0, x.2); x.2 = x.1 + 1  is
    accepted, and the same graph reading the stale x.0 in the loop is rejected *)
 Definition k0 : know := {| kval := None; kdeg := None |}.
@@ -138,3 +185,47 @@ Example C14_origin_example :
   vget (fst st) (key_of xu) = Some 2%N /\ snd st (key_of xu) 2%N = Some (1, 0)%nat /\
   src_path (pre_graph xu) S0 [0; 1; 1; 1]%nat (key_of xu) = Some (1, 0)%nat.
 Proof. vm_compute. repeat split; reflexivity. Qed.
+
+(* the construction on a loop:   var x; x = 0; do { x = x + 1 } while (x); return x
+   blocks 0 -> 1 -> 1|2, dominator tree 0 - 1 - 2, dominance frontier of block 1 = {1}.
+   The hypotheses of the construction theorems hold for it; the output
+     0: var x.0,x.1,x.2; x.0 = 0     1: x.1 = phi(x.0, x.2); x.2 = x.1 + 1; if x.2     2: return x.2
+   passes the erasure validator and (with the declaration table rebuilt from the re-issued
+   declaration statements - the mirror leaves the table itself empty) the SSA validator *)
+Definition loop_pre : cfg :=
+  {| c_kind := KFunction; c_params := []; c_decls := [(xu, TLocal)];
+     c_blocks :=
+       [ {| b_index := 0%N; b_depth := 0%N;
+            b_stmts := [ SDecl m0 [xu] TLocal [];
+                         SSubst m0 xu OpVar (ENum 0 k0) None (Some TLocal) ];
+            b_preds := []; b_succs := [1%N] |};
+         {| b_index := 1%N; b_depth := 1%N;
+            b_stmts := [ SSubst m0 xu OpVar (EInfix IAdd (EVar xu k0) (ENum 1 k0) k0) None (Some TLocal);
+                         SIf m0 (EVar xu k0) 1%N (Some 2%N) ];
+            b_preds := [0%N; 1%N]; b_succs := [1%N; 2%N] |};
+         {| b_index := 2%N; b_depth := 0%N;
+            b_stmts := [ SRet m0 (EVar xu k0) ];
+            b_preds := [1%N]; b_succs := [] |} ] |}.
+Definition loop_frontier : list (list N) := [[]; [1%N]; []].
+Definition loop_children : list (list N) := [[1%N]; [2%N]; []].
+Definition with_stmt_decls (c : cfg) : cfg :=
+  {| c_kind := c_kind c; c_params := c_params c;
+     c_decls := flat_map (fun b => flat_map (fun s => match s with
+                                                      | SDecl _ names t _ => map (fun x => (x, t)) names
+                                                      | _ => []
+                                                      end) (b_stmts b)) (c_blocks c);
+     c_blocks := c_blocks c |}.
+Example C14_construction_hypotheses_satisfiable :
+  pre_ssa_ok loop_pre = true /\ unversioned loop_pre /\
+  children_cover loop_children (length (c_blocks loop_pre)).
+Proof.
+  split; [vm_compute; reflexivity|]. split.
+  - apply unversioned_of_forallb. vm_compute. reflexivity.
+  - apply children_coverb_spec. vm_compute. reflexivity.
+Qed.
+Example C14_construction_example :
+  exists c', into_ssa loop_frontier loop_children loop_pre = SOk c' /\
+    map (fun b => length (b_stmts b)) (c_blocks c') = [2; 3; 1]%nat /\
+    erase_check loop_pre c' = true /\
+    ssa_check (with_stmt_decls c') [None; Some 0%N; Some 1%N] = true.
+Proof. vm_compute. eexists. repeat split. Qed.
